@@ -131,8 +131,14 @@ func main() {
 			name = []byte("ABCDEFGHIJKLMNOPQRSTUVWXYZabcdefghijklmnopqrstuvwxyz0123456789 '()+,-./:=?/")
 		}
 		p := append([]byte{}, curPlmn...)
+		// every second request hands the identifier over in a buffer that is longer than its bit length needs (a four- or five-octet
+		// buffer holding a 22..32-bit identifier): the value is its first `bits` bits, nothing behind them belongs on the wire
+		gidIn := gid
+		if setupCount%2 == 0 {
+			gidIn = append(append([]byte{}, gid...), 0xff, 0x5a)[:len(gid)+1+setupCount%4/2]
+		}
 		r.emit("GetNGSetupRequest", ev.M{"plmn": ev.Ints(p), "gnbId": ev.Ints(gid), "gnbBits": bits, "name": ev.Ints(name)},
-			func() ([]byte, error) { return tglib.GetNGSetupRequest(gid, p, bits, string(name)) })
+			func() ([]byte, error) { return tglib.GetNGSetupRequest(gidIn, p, bits, string(name)) })
 	}
 	nas := func(n int) []byte { return ev.Bytes(rg, n) }
 	// the builder puts the PLMN announced at the last NG Setup into the message: the judge compares every PLMN identity in it
@@ -217,6 +223,12 @@ func main() {
 				lst = []int64{7, 256}
 			case 3:
 				lst = []int64{-1}
+			case 6:
+				lst = []int64{0, 256} // an out-of-range identity behind an in-range one with the same low octet
+			case 7:
+				lst = []int64{5, 44, 300}
+			case 8:
+				lst = []int64{255, -1}
 			case 4, 5:
 				lst = nil
 				for i := 0; i < 252+ai; i++ {
